@@ -110,6 +110,38 @@ fn archive_readers(ctx: &mut Ctx, bytes: &[u8], label: &str, rng: &mut Rng) {
             }
         }
     }
+    // lookups by coordinates, inside and outside the grid (x or y shifted by 2^z alias an existing tile if the grid check is
+    // skipped): both API kinds must answer alike
+    if !ids.is_empty() {
+        let res = guard(|| -> Result<u64, String> {
+            let mut ps = PMTiles::from_bytes(bytes.to_vec()).map_err(|e| format!("sync open failed: {e}"))?;
+            let mut s = ainst(bytes, rng, false);
+            let mut pa = block_on(PMTiles::from_async_reader(&mut s)).map_err(|e| format!("async open failed: {e}"))?;
+            let mut n = 0;
+            for id in ids.iter().step_by((ids.len() / 12).max(1)) {
+                let Some((z, x, y)) = R::id_to_zxy(*id) else { continue };
+                let w = 1u64 << z;
+                for (qx, qy, qz) in [(x, y, z), (x + w, y, z), (x, y + w, z), (x + w, y + w, z), (x, y, z.wrapping_add(32)), (x | 1 << 40, y, z)] {
+                    let a = ps.get_tile(qx, qy, qz).map_err(|e| e.to_string());
+                    let b = block_on(pa.get_tile_async(qx, qy, qz)).map_err(|e| e.to_string());
+                    if a != b {
+                        return Err(format!(
+                            "get_tile({qx},{qy},{qz}): sync {:?}, async {:?}",
+                            a.as_ref().map(|o| o.as_ref().map(Vec::len)),
+                            b.as_ref().map(|o| o.as_ref().map(Vec::len))
+                        ));
+                    }
+                    n += 1;
+                }
+            }
+            Ok(n)
+        });
+        match res {
+            Err(p) => ctx.panic("PMTiles::get_tile_async", &p, mat.clone()),
+            Ok(Err(e)) => ctx.violation("PMTiles::get_tile_async", "readers-differ", "lookup by coordinates answers differently through the async API", &e, mat.clone()),
+            Ok(Ok(n)) => ctx.add("coordinate_lookups_compared", n),
+        }
+    }
     // re-write twins: open with either reader kind, write with the matching writer kind; both outputs must hold
     // the same logical content as the source (and be byte-identical when no codec is involved)
     if bytes.len() < (8 << 20) {
